@@ -255,7 +255,14 @@ impl<M: GuestAddressSpace> VringState<M> {
         }
 
         if let Some(kick) = &self.kick {
-            kick.consume()?;
+            match kick.consume() {
+                Ok(()) => {}
+                // A stale wake-up has nothing to consume: the kick fd may have been replaced (or
+                // already drained) after the worker was woken up. This is not an error of the
+                // vring, and failing here would terminate the worker thread for good.
+                Err(e) if e.kind() == io::ErrorKind::WouldBlock => return Ok(false),
+                Err(e) => return Err(e),
+            }
         }
 
         Ok(self.enabled)
